@@ -174,3 +174,52 @@ def deku_variant_ids(prog, enum_name):
     res = {k: sorted(v) for k, v in out.items()}
     _idcache[key] = res
     return res
+
+
+def const_bytes_of_operand(prog, body, op, depth=0):
+    """constant bytes behind an operand: a byte/str constant, a pointer to a constant allocation,
+    or a local that is assigned exactly once from such a constant (through re-borrows / casts)"""
+    if depth > 6:
+        return None
+    if op['k'] == 'const':
+        v = op['v']
+        if 'bytes' in v:
+            return bytes.fromhex(v['bytes'])
+        key = v.get('ptr', v.get('alloc'))
+        if key is not None:
+            a = prog.allocs.get(tuple(key) if isinstance(key, list) else key)
+            if a and a.get('k') == 'mem':
+                return bytes.fromhex(a['bytes'])[v.get('off', 0):]
+        return None
+    pl = op['pl']
+    if pl['p'] and not (len(pl['p']) == 1 and pl['p'][0][0] == 'deref'):
+        return None
+    loc = pl['l']
+    defs = []
+    for bb in body['blocks']:
+        for st in bb['s']:
+            if st['k'] == 'assign' and st['pl']['l'] == loc and not st['pl']['p']:
+                defs.append(st['rv'])
+    if len(defs) != 1:
+        return None
+    rv = defs[0]
+    if rv['k'] in ('use', 'cast'):
+        return const_bytes_of_operand(prog, body, rv['op'], depth + 1)
+    if rv['k'] == 'ref':
+        return const_bytes_of_operand(prog, body, {'k': 'copy', 'pl': rv['pl']}, depth + 1)
+    return None
+
+
+def serde_struct_keys(prog, self_name):
+    """keys passed to serialize_field by the (derived) Serialize impl of a struct, in order"""
+    for b in prog.bodies.values():
+        im = b.get('impl')
+        if b['kind'] == 'fn' and b['item'] == 'serialize' and im and im.get('self') == self_name and (im.get('trait') or '').endswith('Serialize'):
+            keys = []
+            for bb in b['blocks']:
+                t = bb['t']
+                if t and t['k'] == 'call' and t['callee'] and t['callee'].get('item') in ('serialize_field', 'serialize_entry') and len(t['args']) >= 2:
+                    k = const_bytes_of_operand(prog, b, t['args'][1])
+                    keys.append(k.decode('utf8', 'replace') if k is not None else None)
+            return keys
+    return None
